@@ -88,6 +88,15 @@ def name_pairs(ctx):
             if ' ' in mm + nn or '\n' in mm + nn:
                 continue
             pairs.append((mm, nn))
+    # the module of one allow-list entry with the name of another (builtins.Decimal, datetime.OrderedDict, ...): not on the list, whether or
+    # not the module has such an attribute
+    allow_ = sorted(pkl.builtin_allow())
+    mods_ = sorted({a.rpartition('.')[0] for a in allow_}); nms_ = sorted({a.rpartition('.')[2] for a in allow_})
+    extra_names = ['NoneType', 'iprange', 'Pattern', 'namedtuple', 'SetOrdered', 'type', 'object']
+    for mm in mods_:
+        for nn in nms_ + extra_names:
+            if mm + '.' + nn not in pkl.builtin_allow():
+                pairs.append((mm, nn))
     for mm, nn in [('builtins', 'eval'), ('builtins', 'exec'), ('builtins', '__import__'), ('os', 'system'), ('posix', 'system'),
                    ('subprocess', 'Popen'), ('builtins', 'getattr'), ('verif_sentinel', 'touch'), ('verif_sentinel', 'Boom'),
                    ('datetime', 'datetime.now'), ('builtins', 'bin.__self__'), ('uuid', 'UUID.__init__.__globals__'),
